@@ -287,6 +287,91 @@ def run(ctx, rep):
                    "the register handed down comes from %s" % ([mir.short(x.callee()) for x in oc] or sorted(str(o) for o, _ in tp)), c.span, fn=g.path,
                    key="C15.undisturbed|compile_depth|#%d" % n_rec)
     rep.floor("C15.recursive compile_depth calls", n_rec, 2)
+    fold_keeps_operands(F, rep)
+
+
+def fold_keeps_operands(F, rep):
+    """An expression the folder turns into a constant emits no code at all, so every operand it contained is never evaluated.  That is right
+    only if every operand was itself a constant, or the language would not have evaluated the dropped operand anyway (`false && e`,
+    `true || e`).  `Expr::try_constexpr_eval` is evaluated on a BinOp of every operator with its recursive calls scripted: one operand
+    "not a constant" (Impossible), the other a constant boolean or number; the answer must be Impossible except for the two short-circuit
+    cases with the constant on the left.  Same for the unary forms."""
+    from absint import Interp, TRUE, FALSE
+    CE = "compiler::ast::value::ConstexprEvaluation"
+    VAL = "compiler::ast::value::Value"
+    EXPR = "compiler::ast::math_expr::Expr"
+    OP = "compiler::ast::math_expr::Op"
+    f = F.fn("<compiler::ast::math_expr::Expr as compiler::ast::value::CompileTimeEvaluate>::try_constexpr_eval")
+    ce, val, ex, opa = F.adt(CE), F.adt(VAL), F.adt(EXPR), F.adt(OP)
+    if f is None or not all((ce, val, ex, opa)):
+        raise AnchorMissing("Expr::try_constexpr_eval / ConstexprEvaluation / Value / Op")
+    cen = [v["name"] for v in ce["variants"]]
+    valn = [v["name"] for v in val["variants"]]
+    exn = [v["name"] for v in ex["variants"]]
+    opn = [v["name"] for v in opa["variants"]]
+    if "Impossible" not in cen or "Owned" not in cen or "BinOp" not in exn:
+        raise AnchorMissing("ConstexprEvaluation::{Impossible, Owned} / Expr::BinOp")
+    imp = Variant(CE, cen.index("Impossible"), "Impossible", [])
+
+    def owned(kind, payload):
+        return Variant(CE, cen.index("Owned"), "Owned", [Variant(VAL, valn.index(kind), kind, [payload])])
+    consts = {"true": owned("Boolean", TRUE), "false": owned("Boolean", FALSE), "a number": owned("Number", Opaque("number"))}
+    script = []
+
+    def rec(it, p, fid, fn, t, args):
+        n = sum(1 for e in p.events if e[0] == "scripted")
+        p.events.append(("scripted", n))
+        return absint.ok(script[n]) if n < len(script) else absint.ok(Opaque("more"))
+    models = dict(absint.DEFAULT_MODELS)
+    models["compiler::ast::value::CompileTimeEvaluate::try_constexpr_eval"] = rec
+    bvar = [v for v in ex["variants"] if v["name"] == "BinOp"][0]
+    n = 0
+    for opname in opn:
+        bad, und = [], []
+        for cname, cv in consts.items():
+            for side, sc in (("right", [imp, cv]), ("left", [cv, imp])):
+                script[:] = sc
+                fields = [Variant(OP, opn.index(opname), opname, []) if fl["name"] == "op" else Opaque(fl["name"]) for fl in bvar["fields"]]
+                it = Interp(F, models=models, max_depth=6, max_paths=256)
+                outs = it.run(f, [Variant(EXPR, exn.index("BinOp"), "BinOp", fields)])
+                n += 1
+                allowed_const = side == "left" and ((opname == "And" and cname == "false") or (opname == "Or" and cname == "true"))
+                for o in outs:
+                    v = o.value
+                    if o.kind == "panic":
+                        continue
+                    if o.kind != "return" or not isinstance(v, Variant):
+                        und.append("%s constant %s: %s" % (side, cname, o.kind))
+                        continue
+                    if v.name == "Err":
+                        continue
+                    r = v.fields[0] if v.fields else None
+                    if isinstance(r, Variant) and r.name == "Impossible":
+                        continue
+                    if isinstance(r, Variant) and r.name == "Owned":
+                        if not allowed_const:
+                            bad.append("with the %s operand %s and the other one not a constant the expression folds to %r: the other operand is never evaluated"
+                                       % (side, cname, r.fields[0] if r.fields else r))
+                    else:
+                        und.append("%s constant %s: %r" % (side, cname, r))
+                if it.exhausted:
+                    und.append("path bound")
+        rep.ob("C15.fold-keeps-operands", "`a %s b` folds to a constant only when no operand that would run is dropped" % opname,
+               "violated" if bad else ("undecided" if und else "ok"), "; ".join((bad or und)[:3]), f.span, fn=f.path, key="C15.fold-keeps-operands|%s" % opname)
+    # unary forms
+    for uname in ("UnaryNot", "UnaryMinus"):
+        if uname not in exn:
+            continue
+        script[:] = [imp]
+        uv = [v for v in ex["variants"] if v["name"] == uname][0]
+        it = Interp(F, models=models, max_depth=6, max_paths=256)
+        outs = it.run(f, [Variant(EXPR, exn.index(uname), uname, [Opaque(fl["name"]) for fl in uv["fields"]])])
+        n += 1
+        bad = [repr(o.value)[:60] for o in outs if o.kind == "return" and isinstance(o.value, Variant) and o.value.name == "Ok"
+               and not (isinstance(o.value.fields[0], Variant) and o.value.fields[0].name == "Impossible")]
+        rep.ob("C15.fold-keeps-operands", "%s of a non-constant operand is not folded" % uname, "violated" if bad else "ok", "; ".join(bad[:2]), f.span, fn=f.path,
+               key="C15.fold-keeps-operands|%s" % uname)
+    rep.floor("C15.fold-keeps-operands evaluations", n, 100)
 
 
 def _compile_whole(it, p, fid, fn, t, args):
